@@ -113,6 +113,22 @@ def scan(state, groups, tid):
             Ps = plats[i]
             e_ = edges[0] if i == 1 else edges[2]
             th0, ths = math.atan2(P0["v"], P0["u"]), math.atan2(Ps["v"], Ps["u"])
+            if e_[0] == "jump":
+                # oblique-shock relations between the two constant states alone (no use of where the ray is placed):
+                # normal Mach number from the pressure ratio, then the density ratio, the turning angle and the downstream Mach number
+                pr_ = Ps["p"] / P0["p"]
+                mn2 = 1.0 + (g + 1.0) / (2.0 * g) * (pr_ - 1.0)              # Mn1^2
+                M1 = P0["mach"]
+                if mn2 > 1.0 and M1 > 1.0 and mn2 <= M1 * M1:
+                    sb = math.sqrt(mn2) / M1                                 # sin(beta)
+                    beta = math.asin(sb)
+                    tand = 2.0 / math.tan(beta) * (mn2 - 1.0) / (M1 * M1 * (g + math.cos(2 * beta)) + 2.0)
+                    delta = abs(ths - th0)
+                    mn22 = ((g - 1.0) * mn2 + 2.0) / (2.0 * g * mn2 - (g - 1.0))     # Mn2^2
+                    M2 = math.sqrt(mn22) / math.sin(beta - math.atan(tand))
+                    extra["shock.density-ratio"] = E.e8([Ps["rho"] / P0["rho"], -((g + 1.0) * mn2) / ((g - 1.0) * mn2 + 2.0)])
+                    extra["shock.turning=theta(beta,M)"] = E.e8([math.tan(delta), -tand], max(abs(tand), 1e-3))
+                    extra["shock.mach-behind"] = E.e8([Ps["mach"], -M2])
             if e_[0] == "fan":
                 turn = abs(ths - th0)
                 extra["fan.turning=nu(M2)-nu(M1)"] = E.e8([turn, -(nu(Ps["mach"], g) - nu(P0["mach"], g))], max(turn, 1e-3))
